@@ -248,6 +248,11 @@ func LenSQL() []string {
 		func(k int) string { return rep("a", k) + "`b`" },
 		func(k int) string { return rep("1", k) + "/*x*/" },
 		func(k int) string { return "$a$" + rep("b", k) + "$a$" },
+		// values that fold to a single number in front of a comment (the "1c" shape the whitelist reads as raw text)
+		func(k int) string { return "1-" + rep("a", k) + "--" },
+		func(k int) string { return "1234-" + rep("a", k/2) + "_" + rep("b", k-k/2) + "--" },
+		func(k int) string { return "1+" + rep("a", k) + "/*" },
+		func(k int) string { return "1-" + rep("a", k) + "#" },
 	}
 	tails := []string{"", " or 1", "/*x*/", " --"}
 	for _, g := range single {
